@@ -255,7 +255,7 @@ def run_case(desc, V):
             ks = [k for k in desc['ka'] if k != 0] or [1]
             for cname in ('ndarray', 'list'):
                 X = _amv(alg, V, 'Y', ks, (3,), cname)                # no scalar blade stored: the number lands on a blade X does not have
-                for tag, f in (('s+x', lambda x: s_ + x), ('x-s', lambda x: x - s_), ('s-x', lambda x: s_ - x)):
+                for tag, f in (('s+x', lambda x: s_ + x), ('x-s', lambda x: x - s_), ('s-x', lambda x: s_ - x), ('x**0', lambda x: x ** 0)):
                     R = f(X)
                     for m in range(3):
                         try:
@@ -267,6 +267,23 @@ def run_case(desc, V):
                         claims += _cmp_mv(f'{tag}:{cname}[{m}]', got, f(X[m]), fkey='container-parity|number-plus-array')
             claims.append(Eq('reached', 1, 1))
             return claims
+        # a multivector with PLAIN coefficients assigned to a region with trailing axes: coefficient j gets its own number everywhere
+        for cname in ('ndarray', 'list'):
+            X = _amv(alg, V, 'W', desc['ka'], shape, cname)
+            before, _ = _entries(X)
+            rhs_mv = mv(alg, V, 'q', desc['ka'])
+            try:
+                X[1] = rhs_mv
+            except Exception as e:  # noqa
+                claims.append(Fail(f'setitem-mv:{cname}:raises', f'x[1] = <multivector with plain coefficients> on the {cname} container raises {type(e).__name__}: {e}',
+                                   fkey=f'container-parity|setitem-multivector|{cname}'))
+                continue
+            after, _ = _entries(X)
+            Q = coeffs(rhs_mv)
+            for k in desc['ka']:
+                for ix in np.ndindex(*shape):
+                    pos = int(np.ravel_multi_index(ix, shape))
+                    claims.append(Eq(f'setitem-mv:{cname}[{k},{pos}]', after[(k, pos)], Q[k] if ix[0] == 1 else before[(k, pos)], fkey=f'container-parity|setitem-multivector|{cname}'))
         # setitem-broadcast: a number, or ONE array for all coefficients, assigned through the multivector
         for rhs_kind in ('number', 'array'):
             for cname in ('ndarray', 'list'):
@@ -430,6 +447,16 @@ def run_case(desc, V):
                         continue
                     claims += _cmp_mv(f'{type(num).__name__}{sym_op}', got, want, fkey=f'concrete-number|{type(num).__name__}|value')
         claims.append(Eq('reached', 1, 1))
+        x_ = alg.multivector(keys=tuple(desc['ka']), values=[4.0 + i for i in range(len(desc['ka']))])
+        for tname, two in (('np.int64', np.int64(2)), ('np.int32', np.int32(2)), ('np.float64', np.float64(2)), ('int', 2)):
+            try:
+                r = x_ / two
+            except Exception as e:  # noqa
+                claims.append(Fail(f'div-by-{tname}', f'x / {tname}(2) raises {type(e).__name__}: {e} (x / 2 works)', fkey=f'concrete-numbers|division-by-numpy-integer'))
+                continue
+            for (k, v), (k2, v2) in zip(coeffs(r).items(), coeffs(x_ / 2).items()):
+                if k != k2 or abs(complex(v) - complex(v2)) > 1e-12:
+                    claims.append(Fail(f'div-by-{tname}:value', f'x / {tname}(2) differs from x / 2', fkey='concrete-numbers|division-by-numpy-integer'))
         return claims
     if kind == 'native-arrays':
         # sampling only: float64 arrays, shape/dtype plumbing through a few operators
